@@ -527,4 +527,23 @@ example :
     runAll {} (plan { mode := .none, fixed := false } dir {}).1 = {} ∧
     (plan { mode := .none, fixed := true } dir {}).2 = true := by decide
 
+/-- **schema_apply_failure_changes_nothing**: if any statement of a `schema apply` fails — at any position,
+any number of statements — the database is exactly what it was. -/
+theorem schema_apply_failure_changes_nothing (stmts : List Bool) (db : Db) (h : false ∈ stmts) :
+    runAll db (schemaApply stmts) = db := by
+  rw [schema_apply_all_or_nothing]
+  have : stmts.all id = false := by
+    rw [List.all_eq_false]; exact ⟨false, h, by simp⟩
+  simp [this]
+
+/-- … and when none fails every statement has been executed, in order, once. -/
+theorem schema_apply_success_runs_all (stmts : List Bool) (db : Db) (h : false ∉ stmts) :
+    (runAll db (schemaApply stmts)).journal = db.journal ++ (List.range stmts.length).map (fun x => (0, x)) := by
+  rw [schema_apply_all_or_nothing]
+  have : stmts.all id = true := by
+    rw [List.all_eq_true]; intro x hx; cases x
+    · exact absurd hx h
+    · rfl
+  simp [this]
+
 end Props.C13
